@@ -13,6 +13,7 @@ import sympy as sp
 
 from .. import cfg as C
 from ..astdb import AnalysisBroken, where
+from .c12_m3 import node_exprs
 from ..riemann import (EX, Solver, gamma, sym_for, iz, check_wave_leaves, show_conds, pred_set,
                        same_pred_set)
 from ..symexec import Leaf
@@ -281,3 +282,40 @@ def run(chk, prog):
         n, kinds = check_wave_leaves(chk, sol, name, inl)
         total += n
     chk.floor("N3-N6", total, 50)
+    coverage_of_solve(chk, sol)
+
+
+def coverage_of_solve(chk, sol):
+    """N9 (coverage, not a verdict): every path of solve() to its exit hands the result out through one of the functions
+    whose leaves N3-N6 analyse (the samplers, the vacuum solver).  A path that writes the sampled state itself - an
+    early-out in front of the iteration, say - is outside what the rules above have looked at: the check then ends
+    analysis-broken rather than passing on the strength of the samplers alone."""
+    fn = sol.func("solve")
+    g = C.CFG(fn)
+    outs = {p["id"] for p in fn["params"] if (p.get("t") or "").rstrip().endswith("&") and "const" not in (p.get("t") or "")}
+    if len(outs) < 3:
+        raise AnalysisBroken("ExactRiemannSolver::solve: output parameters not found")
+    through = set()
+    for nd in g.nodes:
+        if nd.ast is None or nd.kind == "marker" or nd.ast.get("k") in ("Abort", "RangeHasNext"):
+            continue
+        for a in node_exprs(nd):
+            for x in C.walk(a):
+                if x.get("k") == "Call" and (x.get("fn") or "").startswith(EX + "::") and x.get("n") != "solve":
+                    refs = [y for y in x.get("a", []) if C.strip_casts(y).get("k") == "Ref" and C.strip_casts(y).get("id") in outs]
+                    if len(refs) >= 3:
+                        through.add(nd.id)
+                # the "no solution" fall-back: the outputs are set to literals (zeros), not to a sampled state
+                if x.get("k") == "Bin" and x.get("op") == "=" and C.strip_casts(x["a"]).get("k") == "Ref" and \
+                        C.strip_casts(x["a"]).get("id") in outs and C.strip_casts(x["b"]).get("k") in ("Float", "Int"):
+                    through.add(nd.id)
+    if not through:
+        raise AnalysisBroken("ExactRiemannSolver::solve: no call hands the outputs to a sampler")
+    if not g.all_paths_pass(g.entry.id, through):
+        reach = g.reachable(g.entry.id, avoid=through)
+        lines = sorted({g.nodes[i].line() for i in reach if g.nodes[i].line()})
+        raise AnalysisBroken("ExactRiemannSolver::solve: a path reaches the end of the function without handing the result to a "
+                             "sampler (lines %s ...): the state it returns is produced outside the functions whose leaves are "
+                             "analysed" % lines[-5:])
+    chk.ok("N9", "every path of solve() hands its result out through a sampler / the vacuum solver (%d call nodes)" % len(through),
+           where(fn))
